@@ -1,19 +1,20 @@
 (** C07 - spline evaluation equals the mathematical B-spline on every entry point.
     Only statements, [exact]s and [Print Assumptions]; the proofs live in SplineTheory.v (which
     connects the executable model SplineModel.v to the seeds BasisCoxDeBoor.v, FindSpan.v,
-    CubicUniform.v).  Every theorem holds for every field with a compatible decidable total order
-    ([sp_laws]), hence for the instance [spq_ops] on Qc that is extracted and run ([c07_qc_laws]).
+    CubicUniform.v) and CoxDeBoorGen.v.  Every theorem holds for every field with a compatible
+    decidable total order ([sp_laws]), hence for the instance [spq_ops] on Qc that is extracted and
+    run ([c07_qc_laws]).
 
     NOT proved here (exercised by the exact differential of harness/props/c07.py only):
-    - that the derivative routine returns d/dx of the basis (general knots and uniform cubic);
-    - at the right end point x = t[len-1-p] the value is characterised as the last polynomial piece
-      (A2.2 on the span len-p-2, which equals Cox - de Boor on the half-open span) evaluated at x,
-      not through a closed-interval variant of the recursion;
-    - cu_find_span (int() truncation, span == ncells branch) returns the same span/offset as
-      nu_find_span on the uniform extension knots; periodic equal values/slopes at both ends. *)
+    - that the derivative formula of [c07_ders_formula] is d/dx of the basis (classical identity);
+    - cu_find_span (int() truncation, span == ncells branch) returns the span/offset of
+      nu_find_span on the uniform extension knots, i.e. equality of the two PATHS on [xmin,xmax]
+      (the closed forms themselves are proved equal: c07_cu_basis_eq_general, c07_cu_ders_eq_general);
+    - periodic splines: equal values and slopes at both ends of the period;
+    - the dispatch of Spline1D / Spline2D / BSplines (numpy level) and floating-point rounding. *)
 From Coq Require Import List Arith Lia ZArith Bool QArith Qcanon.
 Import ListNotations.
-From PGV Require Import BasisCoxDeBoor FindSpan CubicUniform Sums SplineModel SplineTheory SplineQc.
+From PGV Require Import BasisCoxDeBoor CoxDeBoorGen FindSpan CubicUniform Sums SplineModel SplineTheory SplineQc.
 
 (** nu_find_span: for every degree and every knot list with 2p+1 < len and t[p] < t[len-1-p] (no other
     assumption: the search invariant does not need sortedness) the search terminates within its fuel,
@@ -98,6 +99,34 @@ Theorem c07_coxdeboor_local_support :
 Proof. exact sp_N_support. Qed.
 Print Assumptions c07_coxdeboor_local_support.
 
+(** the same on the CLOSED span, hence also at the right end point of the domain: [sp_Nc knots hi] is the
+    Cox - de Boor recursion whose degree-0 functions are the half-open indicators, with the value at
+    x = knots[hi] taken from the left (last interval closed) *)
+Theorem c07_basis_eq_bspline_closed :
+  forall (F : Type) (K : sp_ops F),
+  sp_laws K ->
+  forall (knots : list F) (degree hi : nat) (x : F) (s : nat),
+  sp_sorted F K knots ->
+  sp_span_ok F K knots s ->
+  sp_le K (sp_kn F K knots s) x ->
+  sp_le K x (sp_kn F K knots (S s)) ->
+  (S s <= hi)%nat ->
+  (sp_le K (sp_kn F K knots (S s)) x -> S s = hi) ->
+  (degree <= s)%nat ->
+  sp_A22 F K knots degree x s =
+  map (fun q : nat => sp_Nc F K knots hi x degree (s - degree + q)) (seq 0 (S degree)).
+Proof. exact sp_A22_eq_closed. Qed.
+Print Assumptions c07_basis_eq_bspline_closed.
+
+(** and [sp_Nc] is the plain Cox - de Boor recursion away from the right end point *)
+Theorem c07_bspline_closed_eq_coxdeboor :
+  forall (F : Type) (K : sp_ops F),
+  sp_laws K ->
+  forall (knots : list F) (hi : nat) (x : F) (k i : nat),
+  x <> sp_kn F K knots hi -> sp_Nc F K knots hi x k i = sp_N F K knots x k i.
+Proof. exact sp_Nc_eq_N. Qed.
+Print Assumptions c07_bspline_closed_eq_coxdeboor.
+
 (** partition of unity, for every x (also outside the span: the identity is algebraic) *)
 Theorem c07_basis_sum_one :
   forall (F : Type) (K : sp_ops F),
@@ -145,6 +174,28 @@ Theorem c07_ders_sum_zero :
 Proof. exact sp_ders_sum_zero. Qed.
 Print Assumptions c07_ders_sum_zero.
 
+(** the derivative routine returns p*N_{i,p-1}/(t_{i+p}-t_i) - p*N_{i+1,p-1}/(t_{i+p+1}-t_{i+1}), i = s-p+j (the
+    standard derivative formula in terms of the B-splines of degree p-1; [sp_der_T] is one such term).
+    That this formula is d/dx of N_{i,p} is the classical identity and is NOT proved here *)
+Theorem c07_ders_formula :
+  forall (F : Type) (K : sp_ops F),
+  sp_laws K ->
+  forall (knots : list F) (degree hi : nat) (x : F) (s j : nat),
+  sp_sorted F K knots ->
+  sp_span_ok F K knots s ->
+  sp_le K (sp_kn F K knots s) x ->
+  sp_le K x (sp_kn F K knots (S s)) ->
+  (S s <= hi)%nat ->
+  (sp_le K (sp_kn F K knots (S s)) x -> S s = hi) ->
+  (1 <= degree)%nat ->
+  (degree <= S s)%nat ->
+  (j <= degree)%nat ->
+  nth j (sp_ders_raw F K knots degree x s) (sp0 K) =
+  spsub K (if (j =? 0)%nat then sp0 K else sp_der_T F K knots hi degree x s (j - 1))
+    (if (j =? degree)%nat then sp0 K else sp_der_T F K knots hi degree x s j).
+Proof. exact sp_ders_formula. Qed.
+Print Assumptions c07_ders_formula.
+
 (** nu_eval_spline_1d_scalar (der 0/1) = sum_j coeffs[span-p+j] * basis[j] *)
 Theorem c07_eval_1d_spec :
   forall (F : Type) (K : sp_ops F),
@@ -189,7 +240,7 @@ Proof. exact sp_nu_eval_1d_coxdeboor. Qed.
 Print Assumptions c07_eval_1d_coxdeboor.
 
 (** everywhere in the closed domain (knots and both end points included) the 1-D entry point returns
-    a value, never an error, and it is the local sum over the non-empty span that contains x *)
+    a value, never an error, and it is the local sum over the non-empty span that contains x (der 0/1) *)
 Theorem c07_eval_1d_domain :
   forall (F : Type) (K : sp_ops F),
   sp_laws K ->
@@ -217,6 +268,31 @@ Theorem c07_eval_1d_domain :
             (nth j (sp_basis_of F K der knots degree x s) (sp0 K)))).
 Proof. exact sp_nu_eval_1d_domain. Qed.
 Print Assumptions c07_eval_1d_domain.
+
+(** headline: everywhere in the closed domain the value is the B-spline series sum_j c_{s-p+j} N_{s-p+j,p}(x)
+    of the closed domain *)
+Theorem c07_eval_1d_closed :
+  forall (F : Type) (K : sp_ops F),
+  sp_laws K ->
+  forall (knots : list F) (degree : nat) (coeffs : list F) (x : F),
+  sp_sorted F K knots ->
+  (2 * degree + 1 < length knots)%nat ->
+  sp_lt K (sp_kn F K knots degree) (sp_kn F K knots (S degree)) ->
+  sp_lt K (sp_kn F K knots (length knots - degree - 2)) (sp_kn F K knots (length knots - 1 - degree)) ->
+  sp_le K (sp_kn F K knots degree) x ->
+  sp_le K x (sp_kn F K knots (length knots - 1 - degree)) ->
+  length coeffs = (length knots - degree - 1)%nat ->
+  exists s : nat,
+    sp_nu_find_span F K knots degree x = SpOk s /\
+    (degree <= s <= length knots - degree - 2)%nat /\
+    sp_nu_eval_1d_scalar F K x knots degree coeffs 0 =
+    SpOk
+      (sumr F (sp0 K) (spadd K) 0 (S degree)
+         (fun j : nat =>
+          spmul K (nth (s - degree + j) coeffs (sp0 K))
+            (sp_Nc F K knots (length knots - 1 - degree) x degree (s - degree + j)))).
+Proof. exact sp_nu_eval_1d_closed. Qed.
+Print Assumptions c07_eval_1d_closed.
 
 (** nu_eval_spline_1d_vector = the scalar entry point at every point (errors included) *)
 Theorem c07_vector_eq_map_scalar :
@@ -334,6 +410,28 @@ Theorem c07_cu_ders_sum_zero :
 Proof. exact sp_cu_ders_sum_zero. Qed.
 Print Assumptions c07_cu_ders_sum_zero.
 
+(** cu_eval_spline_1d_scalar = sum_j coeffs[span-3+j]*basis[j] with the (span, offset) of cu_find_span *)
+Theorem c07_cu_eval_1d_spec :
+  forall (F : Type) (K : sp_ops F),
+  sp_laws K ->
+  forall (xmin xmax dx fn : F) (rest coeffs : list F) (x : F) (der : nat) (span : Z) (offset : F),
+  sp_cu_find_span F K xmin xmax dx x (sptrunc K fn) = SpOk (span, offset) ->
+  (der <= 1)%nat ->
+  3 <= span ->
+  (Z.to_nat span < length coeffs)%nat ->
+  sp_cu_eval_1d_scalar F K x (xmin :: xmax :: dx :: fn :: rest) 3 coeffs der =
+  SpOk
+    (sumr F (sp0 K) (spadd K) 0 4
+       (fun j : nat =>
+        spmul K (nth (Z.to_nat span - 3 + j) coeffs (sp0 K))
+          (nth j
+             match der with
+             | 0%nat => sp_cu_basis_funs F K offset
+             | S _ => sp_cu_basis_funs_1st_der F K offset dx
+             end (sp0 K)))).
+Proof. exact sp_cu_eval_1d_scalar_spec. Qed.
+Print Assumptions c07_cu_eval_1d_spec.
+
 (** cu_eval_spline_1d_vector = the scalar entry point at every point *)
 Theorem c07_cu_vector_eq_map_scalar :
   forall (F : Type) (K : sp_ops F) (knots : list F) (degree : nat) (coeffs : list F)
@@ -344,6 +442,76 @@ Theorem c07_cu_vector_eq_map_scalar :
   sp_mapM (fun x : F => sp_cu_eval_1d_scalar F K x knots degree coeffs der) xs.
 Proof. exact sp_cu_eval_1d_vector_eq_map. Qed.
 Print Assumptions c07_cu_vector_eq_map_scalar.
+
+(** cu_eval_spline_2d_scalar = the tensor-product sum *)
+Theorem c07_cu_eval_2d_tensor_sum :
+  forall (F : Type) (K : sp_ops F),
+  sp_laws K ->
+  forall (k1 k2 : list F) (coeffs : list (list F)) (x y : F) (e1 e2 : nat) (xmin xmax dx : F) 
+    (ncx : Z) (ymin ymax dy : F) (ncy s1 : Z) (o1 : F) (s2 : Z) (o2 : F),
+  sp_cu_unpack F K k1 = SpOk (xmin, xmax, dx, ncx) ->
+  sp_cu_unpack F K k2 = SpOk (ymin, ymax, dy, ncy) ->
+  sp_cu_find_span F K xmin xmax dx x ncx = SpOk (s1, o1) ->
+  sp_cu_find_span F K ymin ymax dy y ncy = SpOk (s2, o2) ->
+  (e1 <= 1)%nat ->
+  (e2 <= 1)%nat ->
+  3 <= s1 ->
+  3 <= s2 ->
+  (Z.to_nat s1 < length coeffs)%nat ->
+  (forall row : list F, In row coeffs -> (Z.to_nat s2 < length row)%nat) ->
+  sp_cu_eval_2d_scalar F K x y k1 3 k2 3 coeffs e1 e2 =
+  SpOk
+    (sumr F (sp0 K) (spadd K) 0 4
+       (fun i : nat =>
+        spmul K
+          (sumr F (sp0 K) (spadd K) 0 4
+             (fun j : nat =>
+              spmul K (nth (Z.to_nat s2 - 3 + j) (nth (Z.to_nat s1 - 3 + i) coeffs []) (sp0 K))
+                (nth j
+                   match e2 with
+                   | 0%nat => sp_cu_basis_funs F K o2
+                   | S _ => sp_cu_basis_funs_1st_der F K o2 dy
+                   end (sp0 K))))
+          (nth i
+             match e1 with
+             | 0%nat => sp_cu_basis_funs F K o1
+             | S _ => sp_cu_basis_funs_1st_der F K o1 dx
+             end (sp0 K)))).
+Proof. exact sp_cu_eval_2d_scalar_spec. Qed.
+Print Assumptions c07_cu_eval_2d_tensor_sum.
+
+(** cu_eval_spline_2d_cross = the scalar entry point on the grid *)
+Theorem c07_cu_cross_eq_scalar_grid :
+  forall (F : Type) (K : sp_ops F) (X Y k1 : list F) (d1 : nat) (k2 : list F)
+    (d2 : nat) (coeffs : list (list F)) (e1 e2 : nat) (u1 u2 : F * F * F * Z) 
+    (f : F -> F -> F),
+  sp_cu_unpack F K k1 = SpOk u1 ->
+  sp_cu_unpack F K k2 = SpOk u2 ->
+  (e1 <= 1)%nat ->
+  (e2 <= 1)%nat ->
+  Y <> [] ->
+  (forall x y : F,
+   In x X -> In y Y -> sp_cu_eval_2d_scalar F K x y k1 d1 k2 d2 coeffs e1 e2 = SpOk (f x y)) ->
+  sp_cu_eval_2d_cross F K X Y k1 d1 k2 d2 coeffs e1 e2 = SpOk (map (fun x : F => map (f x) Y) X).
+Proof. exact sp_cu_eval_2d_cross_eq_grid. Qed.
+Print Assumptions c07_cu_cross_eq_scalar_grid.
+
+(** cu_eval_spline_2d_vector = the scalar entry point at the pairs *)
+Theorem c07_cu_vector2d_eq_scalar_pairs :
+  forall (F : Type) (K : sp_ops F) (xs ys k1 : list F) (d1 : nat) (k2 : list F)
+    (d2 : nat) (coeffs : list (list F)) (e1 e2 : nat) (u1 u2 : F * F * F * Z) 
+    (f : F -> F -> F),
+  sp_cu_unpack F K k1 = SpOk u1 ->
+  sp_cu_unpack F K k2 = SpOk u2 ->
+  (e1 <= 1)%nat ->
+  (e2 <= 1)%nat ->
+  length xs = length ys ->
+  (forall x y : F,
+   In (x, y) (combine xs ys) -> sp_cu_eval_2d_scalar F K x y k1 d1 k2 d2 coeffs e1 e2 = SpOk (f x y)) ->
+  sp_cu_eval_2d_vector F K xs ys k1 d1 k2 d2 coeffs e1 e2 =
+  SpOk (map (fun p : F * F => f (fst p) (snd p)) (combine xs ys)).
+Proof. exact sp_cu_eval_2d_vector_eq_zip. Qed.
+Print Assumptions c07_cu_vector2d_eq_scalar_pairs.
 
 (** the laws are satisfiable: the executed instance (canonical rationals) satisfies them *)
 Theorem c07_qc_laws : sp_laws spq_ops.
@@ -387,4 +555,13 @@ Example c07_ex_cu :
      = spq_show_res (spq_nu_eval_1d_scalar (spq_of 3 2) (spq_uniform_knots (spq_of 0 1) (spq_of 1 1) 4) 3 c07_ex_cu_coeffs 0)
   /\ spq_show_res (spq_cu_eval_1d_scalar (spq_of 4 1) c07_ex_cu_knots 3 c07_ex_cu_coeffs 1)
      = spq_show_res (spq_nu_eval_1d_scalar (spq_of 4 1) (spq_uniform_knots (spq_of 0 1) (spq_of 1 1) 4) 3 c07_ex_cu_coeffs 1).
+Proof. vm_compute. repeat split. Qed.
+
+(** the B-splines of the closed domain (Cox - de Boor recursion, value from the left at the right end
+    point x = knots[6] = 4): clamped end value B_5(4) = 1, and the values of A2.2 at x = 3/2 *)
+Example c07_ex_closed :
+  map (fun i => spq_show (sp_Nc Qc spq_ops c07_ex_knots 6 (spq_of 4 1) 3 i)) [2; 3; 4; 5]%nat
+    = [(0%Z, 1%positive); (0%Z, 1%positive); (0%Z, 1%positive); (1%Z, 1%positive)]
+  /\ SpOk (map (fun i => spq_show (sp_Nc Qc spq_ops c07_ex_knots 6 (spq_of 3 2) 3 i)) [1; 2; 3; 4]%nat)
+    = spq_show_list (spq_nu_basis_funs c07_ex_knots 3 (spq_of 3 2) 4).
 Proof. vm_compute. repeat split. Qed.
